@@ -369,7 +369,7 @@ impl G {
                 if self.r.chance(60) {
                     s.push(Step::HoldRef(t));
                 } else {
-                    s.push(Step::DropHeld(t));
+                    s.push(Step::DropHeld(if self.r.chance(30) { a } else { t }));
                 }
             }
         }
@@ -378,6 +378,12 @@ impl G {
         }
         if self.r.chance(5) {
             s.push(Step::CheckIdent);
+        }
+        if self.r.chance(4) {
+            s.push(Step::CheckUpgrade);
+        }
+        if self.r.chance(self.p.p_hold / 3) {
+            s.push(Step::HoldSelf);
         }
         if self.r.chance(2) {
             if let Some(t) = self.downstream(a) {
@@ -399,6 +405,9 @@ impl G {
         let mut s = vec![];
         if self.r.chance(10) {
             s.push(Step::CheckIdent);
+        }
+        if self.r.chance(10) {
+            s.push(Step::CheckUpgrade);
         }
         if self.r.chance(self.p.p_peer / 2) {
             if let Some(t) = self.downstream(a) {
